@@ -1617,8 +1617,14 @@ func (ex *Exec) doReturn(s *State, in *ssa.Return) []*State {
 
 func (ex *Exec) initialState() *State {
 	s := &State{Heap: map[string]Term{}, Ghost: map[string]Term{}, CallCount: map[string]int{}}
-	s.declare("A0", SRef)
-	s.assume(IntLt(IntLit(0), Term{"A0", SRef}))
+	// A0, the allocation frontier at entry: references below it denote the
+	// objects that exist when the function is entered, A0+k the k-th object
+	// allocated since. References are only ever compared, so the value is
+	// immaterial as long as it leaves room for the pre-existing objects; a
+	// literal (2^40, part of A-SLICE: fewer than 2^40 objects exist) keeps the
+	// solvers' arithmetic to bound reasoning, which is several times faster
+	// than a symbolic frontier.
+	s.Decls = append(s.Decls, "(define-fun A0 () Int 1099511627776)")
 	fr := &Frame{Fn: ex.fn, Regs: map[ssa.Value]Val{}, Block: ex.fn.Blocks[0], LoopSeen: map[*ssa.BasicBlock]bool{}, Con: ex.con, IsRoot: true}
 	s.Stack = []*Frame{fr}
 	for _, p := range ex.fn.Params {
